@@ -118,6 +118,33 @@ def main():
             chk.violation(k, "ThreadSanitizer (sweep, threads=%d): %s" % (nt, blk[:900]), {"threads": nt, "report": blk})
     chk.require(sweep_cfgs >= len(slines), "the sweep covered only %d of %d configurations" % (sweep_cfgs, len(slines)))
     chk.require(sweep_refused == 0, "%d sweep configurations were refused" % sweep_refused)
+    # ---- (1c) first-use races: fresh processes whose threads' FIRST library calls are different entry points, released together
+    evfile = os.path.join(build.variant_dir("tsan"), "c12_firstuse_%d.d0t" % os.getpid())
+    open(evfile, "w").write("0 0 K40\n1\n3 0 0.1 0.2 0.3\n\n1 1.5 K40\n2\n1 0 0.1 0 0\n3 1e-09 0 0 1\n\n")
+    fu_plans = [(p, [2, 3, 4, 7][p % 4]) for p in range(14 if quick else 140)]
+
+    def firstuse(plan):
+        p, nt = plan
+        return plan + run([exe_t, "firstuse", str(chk.seed * 1000 + p), str(nt), evfile], timeout=1800, env=build.lib_env("tsan", dict(TSAN_ENV)))
+
+    fu_procs = fu_streams = 0
+    for p, nt, rc, out, err in pmap(firstuse, fu_plans, jobs=max(2, NCPU // 2)):
+        recs = [json.loads(l) for l in out.splitlines() if l.startswith("{")]
+        if rc is None or not recs:
+            if rc is not None and rc < 0:
+                chk.violation("firstuse|signal%d" % -rc, "first-use run died with signal %d (threads=%d): %s" % (-rc, nt, err[-600:]), {"threads": nt, "stderr": err[-3000:]})
+            else:
+                chk.inconclusive_("first-use process %d (threads=%d) gave no result (rc=%s): %s" % (p, nt, rc, err[-300:]))
+            continue
+        fu_procs += 1
+        fu_streams += recs[0]["streams"]
+        for m in recs[0]["mismatches"]:
+            chk.violation(m["key"], "%s [threads=%d]" % (m["detail"], nt), {"threads": nt, "detail": m["detail"]})
+        for k, blk in tsan_reports(err).items():
+            tsan_classes[k] = tsan_classes.get(k, 0) + 1
+            chk.violation(k, "ThreadSanitizer (first use, threads=%d): %s" % (nt, blk[:900]), {"threads": nt, "report": blk})
+    os.unlink(evfile)
+    chk.require(fu_procs >= len(fu_plans) - 1, "only %d of %d first-use processes finished" % (fu_procs, len(fu_plans)))
     # ---- (2) deterministic enumeration of the interleavings of the four schedule points
     exe_p = build.harness("plain", "c12_threads", ["c12_threads.cc"], extra_flags="-rdynamic", libs="-ldl")
     sched = {}
@@ -137,9 +164,10 @@ def main():
     chk.require(etol > 0, "the stress workload never made QNG return GSL_ETOL")
     nsched = sum(v["schedules"] for v in sched.values())
     chk.coverage.update({
-        "evaluations": streams + sweep_streams + nsched,
+        "evaluations": streams + sweep_streams + fu_streams + nsched,
         "distinct_nontrivial": nsched + procs,
-        "rule": "sweep: under ThreadSanitizer, 2 or 4 threads each walk all 69 published background names (i.i.d. tapes and branch thresholds steered) and a sample of "
+        "rule": "first use: fresh processes under ThreadSanitizer whose 2-7 threads make DIFFERENT first library calls at the same moment (lazily initialised state); "
+                "sweep: under ThreadSanitizer, 2 or 4 threads each walk all 69 published background names (i.i.d. tapes and branch thresholds steered) and a sample of "
                 "double-beta (isotope, level, mode) cells in different orders, so that every static object the library writes while generating is written by "
                 "several threads; thread streams from equal tapes must be equal; stress: P fresh processes x T in {2,4,16} threads released by a barrier, each thread constructing, initialising and shooting its own "
                 "generators (quadrature-heavy DBD modes incl. one whose QNG really returns GSL_ETOL, background, gA on synthetic data) with its own tape; "
@@ -150,6 +178,8 @@ def main():
                 "default handler never invoked); distinct = schedules enumerated + processes",
         "samples": [sample or {"note": "none"}, sched],
         "stress_processes": procs,
+        "first_use": {"processes": fu_procs, "results_compared_with_sequential": fu_streams,
+                      "entry_points": "stand-alone dbd_gA on the shipped table (resource lookup), DBD / background / quadrature generators, catalogue accessors, get_resource, event_reader"},
         "sweep": {"processes": nproc, "configurations": sweep_cfgs, "thread_streams_compared": sweep_streams},
         "thread_streams_compared": streams,
         "events": events,
